@@ -20,7 +20,7 @@ SPEC = dict(
     assumptions=["filler contains no digits/upper-case letters (they could extend a version or form a part name); "
                  "R1 proves every layout unambiguous before the real code runs"],
     required=["updates_checked", "eol:LF", "eol:CRLF", "eol:CR", "eol:mixed", "locale_subprocess_runs", "bom_files",
-              "unconfigured_files_checked", "k04_evaluations", "no_final_newline_files"],
+              "unconfigured_files_checked", "k04_evaluations", "no_final_newline_files", "legacy_updates_checked"],
     anchors=[("rewrite", "detect_line_sep"), ("v2rewrite", "rfd_from_content"), ("v2rewrite", "rewrite_files"),
              ("v2rewrite", "iter_rewritten"), ("v2rewrite", "rewrite_lines")],
 )
@@ -33,7 +33,39 @@ def cases(ctx):
     n = ctx.size(1600, 40000)
     nsub = ctx.size(48, 2400)
     for i in range(n):
-        yield {"pseed": ctx.rng.getrandbits(48), "locale": i < nsub}
+        yield {"pseed": ctx.rng.getrandbits(48), "locale": i < nsub, "legacy": i % 8 == 7}
+
+
+def run_legacy(ctx, case, R, mods):
+    """legacy engine: same byte-exact conservation oracle (LF / CRLF / CR files, unconfigured files untouched)"""
+    proj, _why = projects.gen_legacy_project(R, mods, eol_choices=("\n", "\r\n", "\r"))
+    args = ["update", "--no-fetch", "--date", "2100-01-01"] + (["--patch"] if ("semver" in proj.vp or "MAJOR" in proj.vp) else [])
+    files = proj.encoded()
+    extra = {"unrelated.txt": ("v201701.0001 " + proj.cur_text + "\r\nkeep\n").encode()}
+    files.update(extra)
+    d = harness.new_project(files)
+    try:
+        before = harness.snapshot(d, meta=True)
+        res = harness.invoke(args, cwd=d)
+        after = harness.snapshot(d, meta=True)
+        if res.exit_code != 0:
+            ctx.count("legacy_refused")
+            return
+        a = res.record_value("New Version: ")
+        ctx.count("legacy_updates_checked")
+        ctx.evaluated(("legacy", proj.vp, tuple(proj.meta["eols"])), sample={"vp": proj.vp, "old": proj.cur_text, "new": a})
+        want = projects.expected_files_legacy(proj, a)
+        for fn, t in want.items():
+            if after[fn][0] != t.encode("utf-8"):
+                ctx.violation("other:legacy_bytes_outside_span_changed", f"{fn} (eol {proj.eol.get(fn)}): expected "
+                              f"{t[:160]!r}, got {after[fn][0][:160]!r}", observed=proj.describe())
+                break
+        if after["unrelated.txt"] != before["unrelated.txt"]:
+            ctx.violation("other:unconfigured_file_touched", "unrelated.txt (legacy engine)", observed=proj.describe())
+        if not harness.writes_inside(res, d) <= set(proj.file_patterns):
+            ctx.violation("other:write_outside_configured_files", f"{sorted(harness.writes_inside(res, d))}", observed=proj.describe())
+    finally:
+        harness.rm_dir(d)
 
 
 def run_case(ctx, case):
@@ -41,6 +73,8 @@ def run_case(ctx, case):
     mods = updates.bvmods()
     contracts.install_k04()
     tdy = updates.today()
+    if case.get("legacy"):
+        return run_legacy(ctx, case, R, mods)
     proj, why = projects.gen_project(R, mods, tdy, eol_choices=EOLS, filler="unicode", bom_p=0.25,
                                      n_files=R.randint(1, 4), globs=False)
     if proj is None:
